@@ -32,8 +32,8 @@ XF_NOTE = ('Trusted: Coq 8.16.1 kernel; extraction (ExtrOcamlBasic only); ocaml/
            'Netlists are the well-formed ones netgen builds; the module-level counters of uniquify.py/flatten.py are reset per case on both sides. '
            'All theorems: Closed under the global context.')
 CHECKS.update({
- 'C07': dict(engine='xform', note=XF_NOTE, technique='Coq proof (frame/freshness of small-element clones) + correspondence of the three-phase clone model + identity/structure/independence oracle',
-   text='proof (partial): clone of a wire / inner pin yields exactly one fresh detached unconnected element and changes no other field of the heap (Props/C07.v). For library/definition/netlist roots the full statement C07_full (closed + frame) is kept as a Definition; on every run the Gallina model of _clone/_clone_rip_and_replace/_clone_rip for all eight kinds is compared with the real clone() on every element of random hierarchical netlists (full-state dumps), and the Clone oracle checks on the implementation: no shared element, canonical structure equal, copy well-formed, same query answers, source unmodified except documented reference-set registrations, independence under later edits/uniquify/flatten of either side.',
+ 'C07': dict(engine='xform', note=XF_NOTE, technique='Coq proof (frame + closure of the three-phase clone of all eight kinds, for all reachable states) + correspondence of the clone model + identity/structure/independence oracle',
+   text='proof (frame and closure clauses on the model, every kind of root): in every state reachable by editing calls, clone() of a netlist, library, definition, port, cable, wire, pin or instance changes no field of any object that existed before the call (kind, all containers and their order, parents, wire pins, pin wires, references, outer-pin tables, top, bundle attributes, data, namespace tables; reference sets are the documented exception) and every containment link of an object created by the call leads to an object created by the call (Props/C07.v: C07_frame_and_closure, C07_full; Proofs/CloneFrame.v carries an invariant CI through the three phases _clone / _clone_rip_and_replace / _clone_rip of all eight kinds; Proofs/CloneStart.v shows every reachable state is a legitimate start). Faithfulness of the copy (same structure, names, connectivity) and independence under later edits are decided by the correspondence run (the Gallina clone model vs the real clone() on every element of random hierarchical netlists, full-state dumps) and by the Clone oracle on the implementation.',
    design='DESIGN.md 5/C07, 10'),
  'C08': dict(engine='xform', note=XF_NOTE, technique='Coq proof (fixpoint on unique designs) + correspondence of the uniquify model + union-find elaboration oracle',
    text='proof (partial): on a design whose walked instances are all unique or leaves, uniquify returns the state unchanged (Props/C08.v). The full statement C08_full is kept as a Definition; on every run the model of uniquify (BFS, Definition.clone, add_definition at index+1, rename with the module counter, reference change) is compared with the implementation (full-state dumps incl. announcements) and an independent elaboration (instance tree, leaf types, endpoint partition by union-find) is compared before/after, plus uniqueness, well-formedness, fresh names, idempotence.',
